@@ -50,6 +50,8 @@ pub enum Step {
     Seg { inner: Box<Step>, cuts: Vec<usize>, events: Vec<(usize, Step)> },
     /// switch the write throttle of the server's transport to this schedule from now on
     Throttle(Vec<WAns>),
+    /// let this much virtual time pass; keep-alive ticks that fall inside are delivered one by one
+    Wait(u64),
 }
 
 /// answers of the throttled server-side transport to `poll_write`
@@ -87,6 +89,8 @@ pub struct Outcome {
     pub request1: String,
     pub max_alloc: usize,
     pub panicked: bool,
+    /// virtual milliseconds since the connection was created at which each packet was seen
+    pub packet_ms: Vec<u64>,
 }
 
 #[derive(Clone, Debug, PartialEq)]
@@ -161,6 +165,8 @@ struct Runner<'a> {
     undecodable: bool,
     presented: Vec<Vec<u8>>,
     step_i: usize,
+    t0: tokio::time::Instant,
+    packet_ms: Vec<u64>,
 }
 
 impl Runner<'_> {
@@ -256,6 +262,7 @@ impl Runner<'_> {
                     }
                     self.packets.push((self.parsed_upto, p));
                     self.packet_step.push(self.step_i);
+                    self.packet_ms.push(self.t0.elapsed().as_millis() as u64);
                 }
                 None => { self.undecodable = true; }
             }
@@ -282,6 +289,24 @@ impl Runner<'_> {
     async fn run_step(&mut self, step: &Step) {
         match step {
             Step::Tick | Step::AdapterDone | Step::Eof | Step::Throttle(_) => { self.event(step).await; self.settle_and_drain().await; }
+            Step::Wait(ms) => {
+                let period = Duration::from_secs(16);
+                let target = tokio::time::Instant::now() + Duration::from_millis(*ms);
+                loop {
+                    let el = self.t0.elapsed();
+                    let next = period * ((el.as_nanos() / period.as_nanos()) as u32 + 1);
+                    if self.t0 + next <= target {
+                        tokio::time::advance(next - el).await;
+                        self.inputs.push("T".into()); self.inputs1.push("T".into());
+                        self.settle_and_drain().await;
+                    } else {
+                        let now = tokio::time::Instant::now();
+                        if target > now { tokio::time::advance(target - now).await; }
+                        self.settle_and_drain().await;
+                        break;
+                    }
+                }
+            }
             Step::BadLen(n) => { self.inputs.push("B".into()); let b = ref_varint(*n); self.write_plain(&b).await; self.settle_and_drain().await; }
             Step::Raw(b) => { self.inputs.push("?raw".into()); self.write_plain(b).await; self.settle_and_drain().await; }
             Step::RawAs(b, p) => { self.inputs.push("?raw".into()); self.write_plain(b).await; self.after_frame(step, p); self.settle_and_drain().await; }
@@ -344,7 +369,7 @@ async fn execute_async(sc: &Scenario, other_key: &rsa::RsaPublicKey) -> Outcome 
 
     let mut r = Runner { sc, other_key, client, gate, wsched: wsched.clone(), log: log.clone(), enc: None, rx_plain: vec![], parsed_upto: 0,
         phase: ClientPhase::Handshake, packets: vec![], packet_step: vec![], call_step: vec![], inputs: vec![], inputs1: vec![],
-        rsa_pairs: vec![], token: None, ka_ids: vec![], undecodable: false, presented: vec![], step_i: 0 };
+        rsa_pairs: vec![], token: None, ka_ids: vec![], undecodable: false, presented: vec![], step_i: 0, t0: tokio::time::Instant::now(), packet_ms: vec![] };
     for (i, step) in sc.steps.iter().enumerate() {
         r.step_i = i;
         r.run_step(step).await;
@@ -357,7 +382,7 @@ async fn execute_async(sc: &Scenario, other_key: &rsa::RsaPublicKey) -> Outcome 
     let mut panicked = false;
     let result = if task.is_finished() { match task.await { Ok(res) => result_name(&res), Err(e) => if e.is_panic() { panicked = true; "panic".into() } else { "cancelled".into() } } } else { task.abort(); "running".into() };
     let wall_after = wall();
-    let Runner { packets, packet_step, mut call_step, inputs, inputs1, rsa_pairs, token, ka_ids, undecodable, presented, .. } = r;
+    let Runner { packets, packet_step, mut call_step, inputs, inputs1, rsa_pairs, token, ka_ids, undecodable, presented, packet_ms, .. } = r;
 
     // merge adapter calls and packets into one ordered event list
     let calls = log.lock().unwrap().clone();
@@ -417,7 +442,7 @@ async fn execute_async(sc: &Scenario, other_key: &rsa::RsaPublicKey) -> Outcome 
         sc.secret.as_ref().map_or("-".into(), |s| hex(s)), sc.expiry, sc.max_len, hex(sc.client_addr.to_string().as_bytes()), hex(sc.client_addr.ip().to_string().as_bytes()), env.join(" "));
     let request = format!("conn.run {head} {}", inputs.join(" "));
     let request1 = format!("conn1.run {head} {}", inputs1.join(" "));
-    Outcome { request, observed, events, result, auth_cookie_json, wall_before, wall_after, inputs, undecodable, event_steps, request1, max_alloc, panicked }
+    Outcome { request, observed, events, result, auth_cookie_json, wall_before, wall_after, inputs, undecodable, event_steps, request1, max_alloc, panicked, packet_ms }
 }
 
 fn calls_loc(log: &Log) -> Vec<(Option<String>, String)> {
